@@ -77,6 +77,8 @@ def check_step_property(case, steps, j, exp):
         if op['op'] == 'from_terms' and not (operand_spec(case, steps, op['a']) or {'Xs': [{'c': 1}]})['Xs'][0]['c']:
             return None
         return ('raises-' + r['status'], 'valid operation raised %s: %s' % (r['status'], r.get('msg', '')))
+    if r.get('operands_unchanged') is False:
+        return ('mutates-operand', 'the operation changed one of its operands in place')
     if 'dense' not in r:
         return ('asarray-fails', 'result cannot be expanded: %s' % r.get('dense_error'))
     want = exp[1]
